@@ -1349,8 +1349,28 @@ def sv_arctan2(y, x):
                z3.Implies(z3.And(xt < 0, yt >= 0), th > PI / 2), z3.Implies(z3.And(xt < 0, yt < 0), th < -PI / 2),
                z3.Implies(z3.And(xt == 0, yt > 0), th == PI / 2), z3.Implies(z3.And(xt == 0, yt < 0), th == -PI / 2))
         p = new_prim(th, s, c, "arctan2")
-        C.consts[key] = (yn, xn, p)
+        C.consts[key] = (yn, xn, p, yt, xt)
     return SV(t=p.t, A=Ang({id(p): (p, Fr(1))}))
+
+
+def atan2_args(angle):
+    """(y, x) terms of the arctan2 application that produced this angle (None if it is not one)."""
+    t = SV.of(angle).term()
+    entries = [v for k, v in ctx().consts.items() if isinstance(k, tuple) and k and k[0] == "atan2" and len(v) >= 5]
+    # the angle itself, or the single arctan2 primitive it is built from (e.g. wrapped by a multiple of 2 pi)
+    st, seen, hits = [t], set(), []
+    while st:
+        x = st.pop()
+        if x.get_id() in seen:
+            continue
+        seen.add(x.get_id())
+        for v in entries:
+            if v[2].t.eq(x):
+                hits.append(v)
+        st.extend(x.children())
+    if len(hits) == 1:
+        return hits[0][3], hits[0][4]
+    return None
 
 
 def _sqrt_nonneg(a):
